@@ -60,6 +60,9 @@ def corruptions(inst, rng):
            ("trailing_comma", js[:-1] + ",}", True),
            ("python_literals", js.replace("true", "True").replace("false", "False").replace("null", "None"), True),
            ("unquoted_keys", __import__("re").sub(r'"(\w+)":', r"\1:", js), True),
+           ("decoy_first", 'The request was {"unrelated": 1} and the answer is %s' % js, True),
+           ("two_fences", "Schema example:\n```json\n{\"example\": true}\n```\nActual output:\n```json\n%s\n```" % js, True),
+           ("decoy_after", 'Answer: %s (ignore the draft {"draft": 0})' % js, True),
            ("truncated", js[:max(1, len(js) - rng.randint(1, 4))], False),
            ("concat", js + js, False),
            ("empty", "", False), ("not_json", "I could not produce JSON, sorry.", False),
